@@ -149,6 +149,36 @@ def finish_rule(ctx, facts):
                           "hash_set returns `%s`, not self.min_store.create_signature(%s): this signature is not comparable with the ones the store produces" % (nf.nf(e0, True)[:100], dname))
 
 
+def lenguard_rule(ctx, facts):
+    """LENGUARD: hash_set refuses exactly the inputs shorter than l: the only way out before the races (panic or return) is under
+    `data.len() < l` with l the store's l — `<=` would refuse the shortest legal sequence (length exactly l), a weaker test would
+    let a too-short input reach the store"""
+    from ..rulelib import resolver_of, tree_of, for_loops
+    fid = POM + "hash_set"
+    fn = facts.fn(fid)
+    t = tree_of(fn)
+    R = resolver_of(fn)
+    ctx.rule("LENGUARD", "ProbOrdMinHash2::hash_set leaves before the races only under `data.len() < self.min_store.get_l()` (strict): every "
+                         "sequence of length >= l is hashed")
+    dname = hirq.show_pat(fn["params"][1]["pat"]) if len(fn.get("params", [])) > 1 else "data"
+    fls = [f for f in for_loops(fn) if not t.enclosing_loops(f["loop"])]
+    anchor = fls[0]["match"] if fls else None
+    ifs = [x for x in user_nodes(fn) if x["k"] == "If" and not hirq.from_expansion(x) and nf._diverges(x["t"]) and (anchor is None or _before(fn, x, anchor))
+           and not t.enclosing_loops(x)]
+    L = ("self.min_store.get_l()", "self.min_store.l")
+    n = 0
+    for x in ifs:
+        at = nf.atoms(x["c"], True, res=R)
+        n += 1
+        if len(at) == 1 and at[0][0] == "cmp" and at[0][2] == "<" and at[0][1] == "%s.len()" % dname and at[0][3] in L:
+            ctx.ok("LENGUARD", fid, "rejects when %s.len() < l" % dname, hirq.loc(x))
+        else:
+            ctx.violation("LENGUARD", fid, "rejection condition", hirq.loc(x),
+                          "hash_set gives up when %s; expected exactly `%s.len() < self.min_store.get_l()`: a sequence of length l is legal" % (at[:2], dname))
+    if n == 0:
+        ctx.info("%s: no rejecting test before the races (the store asserts the length itself)" % fid)
+
+
 def absorb_rule(ctx, facts):
     """ABSORB: the mixing hasher that produces the per-pair seed absorbs the element hash and the occurrence number as separate
     words (one `write_*` each, the argument a plain value): combining them first with `^`, `+`, `|` … maps distinct
@@ -524,6 +554,7 @@ def run(ctx, facts):
     ctx.floor("C11 seeding sites", s, 1)
     absorb_rule(ctx, facts)
     finish_rule(ctx, facts)
+    lenguard_rule(ctx, facts)
     occurrence_rule(ctx, facts)
     st = store_rules(ctx, facts)
     ctx.floor("C11 store writes", st, 3)
